@@ -125,11 +125,27 @@ CHECKS = {
              "the child presuppose the same fact about the parent (e.g. after disconnect duplicates are intended). Revolution is claimed for "
              "right-handed sweeps of sections on the positive side of the axis (the documented usage); mirror/flip for linear cell types.",
         ref="5/C16"),
+    "C17": dict(
+        engine="TensorLaws",
+        technique="TLA+ definitions of the tensor routines (index-notation evaluator, determinant/cofactor/deviator/Voigt/cross formulas) in "
+                  "TensorLaws.tla evaluated exactly by TLC on batches of integer tensors passed through the real routines",
+        text="For every routine and mode (all dot/ddot/dddot/dya/crossed-dyadic modes, det, cof, inv via adjugate and on unimodular matrices, dev, "
+             "sym, trace, transposes, cross, Voigt with strain doubling, von Mises, in-plane projection, batched solve, linsteps, Seth-Hill at "
+             "integer stretches) TLC recomputes every component of every batch item from the definition and compares exactly, including "
+             "size-one broadcast axes; flag variants (sym shortcut, supplied determinant, fresh / reused out buffer, parallel) must be "
+             "bit-identical to the plain call and leave the inputs' bit patterns unchanged; rotation matrices and eigen-decompositions "
+             "are decided through orthogonality / angle / reconstruction laws at 2^-20; the definitions' own consistency "
+             "(A adj A = det A 1) is checked by TLC at start-up.",
+        note="Integer entries in -2..2 (polynomial routines are thereby decided as identities in practice but formally on the lattice); "
+             "eig of non-symmetric tensors, generic Seth-Hill exponents and dtype variants are not covered.",
+        ref="5/C17"),
 }
 
 NOT_YET = {}
 
 ENGINES = [
+    {"name": "TensorLaws", "path": "spec/TensorLaws.tla", "serves_properties": ["C17"],
+     "kind_free_text": "TLA+ exact tensor algebra definitions (Einstein-summation evaluator) + TLC trace validation"},
     {"name": "MeshOps", "path": "spec/MeshOps.tla", "serves_properties": ["C16"],
      "kind_free_text": "TLA+ exact lattice geometry relations + MeshOpsMC.tla program-space model + MeshGen.tla fixed-point generators"},
     {"name": "Assembly", "path": "spec/Assembly.tla", "serves_properties": ["C02"],
